@@ -51,6 +51,9 @@ extra = {"C08": "yes: downloads after an abandoned earlier transfer on the same 
          "R9C07": "yes: builder history on the prepared reply before the error is applied - a Content-Format set and withdrawn, raw values (empty, several, over-long), an emptied entry, an earlier error",
          "R9C15": "yes: counters after very many rounds - runs of up to 2^24 non-confirmable rounds performed in full but recorded as one event, `Observe!ChangedMany` being their closed form (checked against single rounds in MC_Observe); single rounds recorded around 2^8, 2^16, 2^24",
          "R9C20": "yes: expiries that are not whole milliseconds (0, 1 us, 750 us, 999 us, 1.5 ms, 20.5 ms); the trace carries a lower and an upper bound and the interval clocks use the right one on each side",
+         "R10C05": "yes: every number also goes through the message-level accessors (raw option bytes -> get_content_format / get_observe_flag -> name, set_content_format -> bytes), not only through the conversion functions",
+         "R10C08": "yes: options a client repeats on every request of a transfer, follow-up blocks included (Observe register / deregister, Accept, If-None-Match, Uri-Query, Size1) in the download driver; observing clients in MC_BlockTransfer",
+         "R10C16": "yes: every attribute name the crate knows (rel, anchor, ..., et) and some it does not as keys, with repetitions - model MODE keys (one link, up to three attributes, 21 keys in every order) and the random documents",
          "R4C12": "yes: the two entry points of an exchange as separate steps with equal message ids on different endpoints (model MODE split, deferred responses in the mixed driver); a disturbed other key is reported under C12 in every branch",
          "C20": "yes: expiry under block-wise traffic on other keys (model `Other` now block-wise; driver scenario `expiry-traffic`)"}
 for d in sorted(glob.glob(os.path.join(ROOT, "seeded", "*", "meta.json"))):
